@@ -131,7 +131,7 @@ def extract(tree):
     if len(z) != 1 or len(p) != 1: raise Untranslatable('backward: zero / push statements')
     conds.append(('backward_zero_cond', z[0].test, 'Tensor.backward traversal: `child.zero_()` when …'))
     conds.append(('backward_push_cond', p[0].test, 'Tensor.backward traversal: push the child when …'))
-    ra = [s for s in bw.body if isinstance(s, ast.If) and _body_has(s, 'self._grad = self._grad + grad_data')]
+    ra = [s for s in bw.body if isinstance(s, ast.If) and _body_has(s, 'self._grad + grad_data')]
     if len(ra) != 1 or len(ra[0].orelse) != 1 or ast.unparse(ra[0].orelse[0]) != 'self._grad = grad_data':
         raise Untranslatable('backward: root gradient statement')
     conds.append(('backward_root_accumulates', ra[0].test, 'Tensor.backward: the root accumulates (else: is assigned) when …'))
